@@ -129,3 +129,25 @@ Proof.
   constructor; [|constructor; [|constructor]]; (split; [split; [discriminate | reflexivity]|]); (split; [reflexivity|]); left; (split; [reflexivity|]);
     repeat constructor.
 Qed.
+
+(* ---- versatiles v02 at byte level: block definitions (33 bytes) and tile-index entries (12 bytes) ---- *)
+From VT Require Import Model.VTBytes Proofs.VTBytesProofs.
+(* every well-formed block definition - any block coordinate, any partial coverage, any byte ranges
+   an encoder may choose - is read back field by field from its 33 bytes *)
+Theorem C16_block_definition_bytes : forall b, bdef_wf b ->
+  exists l, bdef_as_blob b = Ok l /\ length l = 33%nat /\ bdef_from_blob l = Ok b.
+Proof. exact bdef_roundtrip. Qed.
+Print Assumptions C16_block_definition_bytes.
+Theorem C16_tile_index_bytes : forall idx, Forall (fun p => (fst p <= u64_max /\ snd p <= u32_max)%N) idx ->
+  tidx_from_blob (tidx_as_blob idx) = Ok idx.
+Proof. exact tidx_roundtrip. Qed.
+Print Assumptions C16_tile_index_bytes.
+(* the lookup path shifts a slot by the block's tile-data offset: the entry read is the stored one, shifted *)
+Theorem C16_tile_index_offset : forall o idx out, tidx_add_offset o idx = Ok out ->
+  forall i p, nth_error idx i = Some p -> nth_error out i = Some ((fst p + o)%N, snd p) /\ (fst p + o <= u64_max)%N.
+Proof. exact tidx_add_offset_nth. Qed.
+Print Assumptions C16_tile_index_offset.
+Example C16_bdef_example :
+  let b := mkBD 9 1 0 3 0 255 17 259 0 511 17 66 1000 1066 40 in
+  bdef_wf b /\ exists l, bdef_as_blob b = Ok l /\ bdef_from_blob l = Ok b.
+Proof. split; [unfold bdef_wf, u32_max, u64_max; cbn; repeat split; lia|]. eexists. split; vm_compute; reflexivity. Qed.
